@@ -10,6 +10,7 @@ import (
 	"strconv"
 
 	"verifharness/core"
+	_ "verifharness/fam/ast"
 	_ "verifharness/fam/enums"
 	_ "verifharness/fam/indent"
 	_ "verifharness/fam/numbers"
